@@ -637,11 +637,11 @@ def check_constants(ctx, R="C07.const"):
 
 
 def check(ctx):
-    check_directional(ctx)
-    check_corners(ctx)
-    check_binding(ctx)
-    check_grammar_fields(ctx)
-    check_facing(ctx)
-    check_angles(ctx)
-    check_coercions(ctx)
-    check_constants(ctx)
+    ctx.run(check_directional)
+    ctx.run(check_corners)
+    ctx.run(check_binding)
+    ctx.run(check_grammar_fields)
+    ctx.run(check_facing)
+    ctx.run(check_angles)
+    ctx.run(check_coercions)
+    ctx.run(check_constants)
